@@ -4,7 +4,7 @@ from evalutil import *
 
 ID = "C13"
 LEVEL = "proof"
-MODULES = ["H3Proofs.Props.C13", "H3Proofs.Props.C13Bij"]
+MODULES = ["H3Proofs.Props.C13", "H3Proofs.Props.C13Bij", "H3Proofs.Props.C04Valid"]
 THEOREMS = "auto"
 ASSUMPTIONS = ["hand-written model of cellToChildPos/childPosToCell/validateChildPos/_ipow tied to the code by "
                "the correspondence check"]
